@@ -17,6 +17,98 @@ struct Stats {
     err: u64,
 }
 
+/// One small well-formed record (header + payload) of every record type in the GDSII specification, with its spec data type.
+fn catalog() -> Vec<Vec<u8>> {
+    fn rec(rt: u8, dt: u8, payload: &[u8]) -> Vec<u8> {
+        let mut v = ((payload.len() + 4) as u16).to_be_bytes().to_vec();
+        v.push(rt);
+        v.push(dt);
+        v.extend_from_slice(payload);
+        v
+    }
+    let i16s = |xs: &[i16]| xs.iter().flat_map(|x| x.to_be_bytes()).collect::<Vec<u8>>();
+    let i32s = |xs: &[i32]| xs.iter().flat_map(|x| x.to_be_bytes()).collect::<Vec<u8>>();
+    let one = 0x4110_0000_0000_0000u64.to_be_bytes();
+    let mut out = vec![
+        rec(0x00, 2, &i16s(&[600])),                       // HEADER
+        rec(0x01, 2, &i16s(&[1; 12])),                     // BGNLIB
+        rec(0x02, 6, b"ab"),                               // LIBNAME
+        rec(0x03, 5, &[one, one].concat()),                // UNITS
+        rec(0x04, 0, &[]),                                 // ENDLIB
+        rec(0x05, 2, &i16s(&[1; 12])),                     // BGNSTR
+        rec(0x06, 6, b"st"),                               // STRNAME
+        rec(0x07, 0, &[]),                                 // ENDSTR
+        rec(0x08, 0, &[]),                                 // BOUNDARY
+        rec(0x09, 0, &[]),                                 // PATH
+        rec(0x0A, 0, &[]),                                 // SREF
+        rec(0x0B, 0, &[]),                                 // AREF
+        rec(0x0C, 0, &[]),                                 // TEXT
+        rec(0x0D, 2, &i16s(&[1])),                         // LAYER
+        rec(0x0E, 2, &i16s(&[0])),                         // DATATYPE
+        rec(0x0F, 3, &i32s(&[2])),                         // WIDTH
+        rec(0x10, 3, &i32s(&[0, 0])),                      // XY
+        rec(0x11, 0, &[]),                                 // ENDEL
+        rec(0x12, 6, b"st"),                               // SNAME
+        rec(0x13, 2, &i16s(&[1, 1])),                      // COLROW
+        rec(0x14, 0, &[]),                                 // TEXTNODE
+        rec(0x15, 0, &[]),                                 // NODE
+        rec(0x16, 2, &i16s(&[0])),                         // TEXTTYPE
+        rec(0x17, 1, &[0, 5]),                             // PRESENTATION
+        rec(0x18, 0, &[]),                                 // SPACING
+        rec(0x19, 6, b"tx"),                               // STRING
+        rec(0x1A, 1, &[0x80, 0]),                          // STRANS
+        rec(0x1B, 5, &one),                                // MAG
+        rec(0x1C, 5, &one),                                // ANGLE
+        rec(0x1D, 0, &[]),                                 // UINTEGER
+        rec(0x1E, 0, &[]),                                 // USTRING
+        rec(0x1F, 6, &[b'r'; 90]),                         // REFLIBS
+        rec(0x20, 6, &[b'f'; 176]),                        // FONTS
+        rec(0x21, 2, &i16s(&[2])),                         // PATHTYPE
+        rec(0x22, 2, &i16s(&[3])),                         // GENERATIONS
+        rec(0x23, 6, b"attr"),                             // ATTRTABLE
+        rec(0x24, 6, b"sl"),                               // STYPTABLE
+        rec(0x25, 2, &i16s(&[0])),                         // STRTYPE
+        rec(0x26, 1, &[0, 1]),                             // ELFLAGS
+        rec(0x27, 3, &i32s(&[0])),                         // ELKEY
+        rec(0x28, 0, &[]),                                 // LINKTYPE
+        rec(0x29, 0, &[]),                                 // LINKKEYS
+        rec(0x2A, 2, &i16s(&[0])),                         // NODETYPE
+        rec(0x2B, 2, &i16s(&[1])),                         // PROPATTR
+        rec(0x2C, 6, b"pv"),                               // PROPVALUE
+        rec(0x2D, 0, &[]),                                 // BOX
+        rec(0x2E, 2, &i16s(&[0])),                         // BOXTYPE
+        rec(0x2F, 3, &i32s(&[1])),                         // PLEX
+        rec(0x30, 3, &i32s(&[1])),                         // BGNEXTN
+        rec(0x31, 3, &i32s(&[1])),                         // ENDEXTN
+        rec(0x32, 2, &i16s(&[1])),                         // TAPENUM
+        rec(0x33, 2, &i16s(&[0; 6])),                      // TAPECODE
+        rec(0x34, 1, &[0, 0]),                             // STRCLASS
+        rec(0x35, 3, &i32s(&[0])),                         // RESERVED
+        rec(0x36, 2, &i16s(&[0])),                         // FORMAT 0 (archive)
+        rec(0x36, 2, &i16s(&[1])),                         // FORMAT 1 (filtered): MASK ... ENDMASKS should follow
+        rec(0x37, 6, b"1 2-5"),                            // MASK (odd length, unpadded on purpose? no: padded below)
+        rec(0x38, 0, &[]),                                 // ENDMASKS
+        rec(0x39, 2, &i16s(&[4])),                         // LIBDIRSIZE
+        rec(0x3A, 6, b"srfn"),                             // SRFNAME
+        rec(0x3B, 2, &i16s(&[1, 2, 3])),                   // LIBSECUR
+    ];
+    // MASK payload must be even: fix the one odd payload above
+    for r in out.iter_mut() {
+        if r.len() % 2 == 1 {
+            r.push(0);
+            let l = (r.len() as u16).to_be_bytes();
+            r[0] = l[0];
+            r[1] = l[1];
+        }
+    }
+    // FORMAT 1 followed by a complete mask list, as one insertion
+    let mut fm = rec(0x36, 2, &i16s(&[1]));
+    fm.extend(rec(0x37, 6, b"1 2 3 "));
+    fm.extend(rec(0x38, 0, &[]));
+    out.push(fm);
+    out
+}
+
 impl C10 {
     /// One execution of the reader on `bytes`, under the panic guard and the logical step budget.
     /// `must_err`: the input is a strict prefix of a valid stream (cut before the end of ENDLIB).
@@ -178,6 +270,16 @@ impl C10 {
                 self.probe(cx, &with(&r), false, class, &mut st);
                 cx.count("fault.dtype");
             }
+            // a well-formed record of every kind in the specification inserted BEFORE this record (spec data type, small valid payload):
+            // library-level optional records (REFLIBS, FONTS, ATTRTABLE, GENERATIONS, FORMAT 0/1 with and without MASK/ENDMASKS, ...),
+            // element records out of place, a second HEADER / ENDLIB, ...
+            for rec in catalog() {
+                let mut v = bytes[..a].to_vec();
+                v.extend_from_slice(&rec);
+                v.extend_from_slice(&bytes[a..]);
+                self.probe(cx, &v, false, class, &mut st);
+                cx.count("fault.insert");
+            }
             // deleted / duplicated / swapped with next / spliced from elsewhere
             self.probe(cx, &with(&[]), false, class, &mut st);
             cx.count("fault.delete");
@@ -213,7 +315,7 @@ impl Prop for C10 {
     }
     fn rule(&self) -> String {
         "Seeds: streams from the independent reference encoder (random libraries incl. wide reals, empty/UTF-8 strings) and the repository's .gds files. Per seed: EVERY truncation point (all prefixes for seeds <= 8 KB; every record boundary +-3 bytes for larger), \
-         and for EVERY record: length field := 0,1,2,3,odd,len-2,len+2,0xFFFF,4,6; payload emptied; payload overwritten with 0x00 / 0xFF; record type := each of 0x00..0x3D,0x7F,0xFF; data type := 0..7,0xFF; record deleted, duplicated, swapped with the next, replaced by another record of the stream; \
+         and for EVERY record: length field := 0,1,2,3,odd,len-2,len+2,0xFFFF,4,6; payload emptied; payload overwritten with 0x00 / 0xFF; record type := each of 0x00..0x3D,0x7F,0xFF; data type := 0..7,0xFF; record deleted, duplicated, swapped with the next, replaced by another record of the stream, preceded by an inserted well-formed record of each of the specification's record types (FORMAT with and without its mask list included); \
          plus random byte flips, pure noise and size-scaling streams (2^6..2^16 elements). Monitors on each execution of GdsLibrary::from_bytes: panic capture; logical step budget via hooks (records read <= len/4+2, parser steps <= that+8); \
          strict prefixes must be Err; every Ok(lib) must write and re-read equal. distinct_nontrivial = distinct input byte strings (hash) that reached the reader."
             .into()
